@@ -17,7 +17,7 @@ for d in $ROOT/C*_out/r*; do
   rm -rf $ROOT/scratch && mkdir -p $ROOT/scratch && cp -r /repo/pymbolic $ROOT/scratch/pymbolic && (cd $ROOT/scratch && patch -p1 -s < "$d/patch.diff")
   : > $d/.tried
   res=""
-  for q in C01 C02 C03 C04 C05 C06 C07 C08 C09 C10 C11 C12 C13 C14 C15 C16 C17 C19 C20; do
+  for q in C01 C02 C03 C04 C05 C06 C07 C08 C09 C10 C11 C12 C13 C14 C15 C16 C17 C18 C19 C20; do
     out=$(cd /verif && PV_REPO=$ROOT/scratch ./check $q --no-evidence 2>&1); rc=$?
     if [ $rc -ne 0 ]; then res="$res $q=$rc"; echo "## $q rc=$rc" >> $d/.tried; echo "$out" | grep -A2 "VIOLATION\|ANALYSIS-ERROR" | grep -v "^--" | head -9 | cut -c1-300 >> $d/.tried; fi
   done
